@@ -60,6 +60,14 @@ func c14Check() *HistCheck {
 			}
 			if !s.AppUp {
 				s.Do("CO")
+				proj = append(proj, "CO")
+			}
+			// the application must still be able to write: one more write ends every history (it is part of
+			// the projection replayed on the control, so a write blocked by a lock litestream leaked shows)
+			if !s.InTx {
+				if o := s.Do("W1"); !o.Illegal {
+					proj = append(proj, "W1")
+				}
 			}
 			got, err := s.ObserveApp()
 			if err != nil {
@@ -128,7 +136,18 @@ func c14(args []string) int {
 	aCore := strings.Fields("W1 U D UV DDL S SW LC:PASSIVE LC:TRUNCATE SNAP CMP:1 CL START")
 	aTx := strings.Fields("W1 TXB TXC TXR RDB RDE S SW LC:PASSIVE LC:TRUNCATE CK:TRUNCATE VAC")
 	aWide := append(append([]string{}, alphaWide...), "UV", "SNAP", "CMP:1", "KILL", "NEW", "RSET")
+	// local disk faults: a one-shot ENOSPC on the open / first write / fsync of the next (or second next) local
+	// LTX staging file, so that every error path that runs while litestream holds its lock-table write
+	// transaction (checkpoint barrier, boundary snapshot) is taken at least once
+	aFault := strings.Fields("W1 U DDL S SW LC:PASSIVE LC:TRUNCATE LC:RESTART")
+	var faultSeeds [][]string
+	for _, base := range []string{"W3 SW", "W3 SW W1", "W3 SW LC:PASSIVE W1"} {
+		for _, lf := range []string{"LF:write", "LF:open", "LF:sync", "LF:write:2"} {
+			faultSeeds = append(faultSeeds, strings.Fields(base+" "+lf))
+		}
+	}
 	layers := []Layer{
+		{Name: "seeded/base/local-faults", Cfg: cfgs["base"], Alphabet: aFault, Depth: d(2, 4), Seeds: faultSeeds},
 		{Name: "exact/min3/core", Cfg: cfgs["min3"], Alphabet: aCore, Depth: d(3, 5)},
 		{Name: "exact/base/tx", Cfg: cfgs["base"], Alphabet: aTx, Depth: d(3, 5)},
 		{Name: "exact/avincr/shape", Cfg: cfgs["avincr"], Alphabet: alphaShape, Depth: d(3, 4)},
@@ -142,5 +161,5 @@ func c14(args []string) int {
 			"the control run replays exactly the application operations of the history on a database litestream never opens; results are cached per (configuration, projection)",
 			"application operations are deterministic (row contents derive from a counter), so the two runs are comparable row by row",
 		},
-		"every history over the layer alphabet (application writes/DDL/VACUUM/transactions/pragmas interleaved with litestream sync, checkpoint, snapshot, compaction, close/start, kill/restart, reset) up to the layer depth; oracle: logical dump of user-visible schema and rows and header pragmas equal those of the same application history without litestream; _litestream_lock empty; _litestream_seq has at most the row id=1; integrity_check ok; journal_mode wal")
+		"every history over the layer alphabet (application writes/DDL/VACUUM/transactions/pragmas interleaved with litestream sync, checkpoint, snapshot, compaction, close/start, kill/restart, reset, and one-shot ENOSPC faults on local LTX staging files) up to the layer depth; oracle: logical dump of user-visible schema and rows and header pragmas equal those of the same application history without litestream; _litestream_lock empty; _litestream_seq has at most the row id=1; integrity_check ok; journal_mode wal")
 }
